@@ -465,6 +465,7 @@ func runC04(c *Ctx) {
 
 	// ---------- R-reply-format ----------
 	ruleReplyFormat(c)
+	ruleEnhDefault(c)
 
 	// ---------- R-verdict-flow ----------
 	R.Rule("R-verdict-flow", "E4 value flow", "every reply with a computed code takes code, enhanced code and text from dataErrorToStatus applied to THIS transaction's backend result; dataErrorToStatus is positive only for a nil error", 6)
